@@ -8,8 +8,9 @@ from .. import core, realcode
 OPS = {'==': '=', '!=': '<>', '>': '>', '>=': '>=', '<': '<', '<=': '<='}
 NUMS = [5, 2.5, -4, 0, 3, 10]
 TEXTS = ['apple', 'APPLE', 'a*', '*an*', '?pple', 'a~*c', 'ab', 'a?', 'b', 'x y', 'a.c', '[a]', 'banana',
-         'nan', 'inf', 'Infinity', '1_0', 'e5', '0x1A']        # words float() would take for numbers: they are texts
-CELLS = [5, 3, 10, 2.5, -4, 0, 'apple', 'Apple', 'banana', 'a*c', 'abc', 'ab', 'a.c', 'axc', '[a]', '', True, False, None, 'NaN', 'nan', 'INF', 'infinity', '1_0', 26]
+         'nan', 'inf', 'Infinity', '1_0', 'e5', '0x1A',        # words float() would take for numbers: they are texts
+         'a~~b', '50~~', '~~', 'a~?', '~*~~']                    # ~ escapes itself and the wildcards, with or without a wildcard in the text
+CELLS = [5, 3, 10, 2.5, -4, 0, 'apple', 'Apple', 'banana', 'a*c', 'abc', 'ab', 'a.c', 'axc', '[a]', '', True, False, None, 'NaN', 'nan', 'INF', 'infinity', '1_0', 26, 'a~b', 'a~~b', '50~', '50~~', '~', '~~', 'a?', 'a~?', '*~', '*~~']
 
 
 class _Blank:
@@ -195,6 +196,36 @@ def end_to_end(chk, tier):
                     chk.violation({'why': 'AVERAGEIFS is not SUMIFS / COUNTIFS over the same selection', 'formula': laws[i], 'average': a, 'sum': s, 'count': c, 'stream': 'avg-law'})
             elif c == 'I0' and a not in (core.enc('#DIV/0!'), core.enc('#DIV0!')):
                 chk.violation({'why': 'AVERAGEIFS over an empty selection is not the division error value', 'formula': laws[i], 'average': a, 'stream': 'avg-law'})
+        # a target range that also holds numbers stored as text: they are neither summed nor counted
+        mixed = [rng.choice([1, 2, 4, 8, 16, 32, '20', '7', '100']) for _ in range(h)]
+        mvalues = dict(values)
+        for i, v in enumerate(mixed):
+            mvalues[(8, i)] = v                      # column I
+        forms, wants = [], []
+        for col, kind, op, val, rendered, text in rng.sample(crit_forms, 12):
+            forms.append('=AVERAGEIFS(%s,%s,%s)' % (R('I'), R(col), text))
+            forms.append('=COUNTIFS(%s,%s)' % (R(col), text))
+            forms.append('=SUMIFS(%s,%s,%s)' % (R('D'), R(col), text))
+            forms.append('=SUMIFS(%s,%s,%s)' % (R('I'), R(col), text))
+        mo = realcode.eval_formulas(forms, mvalues)
+        for i in range(0, len(forms), 4):
+            a, c, sd, si = mo[i:i + 4]
+            chk.count('law:averageifs-mixed-target')
+            chk.seen(('avgmix', b, forms[i]))
+            if not c.startswith('I') or sd.startswith('E') or si.startswith('E'):
+                continue
+            # which positions are selected: SUMIFS over D (all numbers, distinct powers are not needed: use a mask column instead)
+            mask_forms = ['=COUNTIFS(%s,%s)' % ('%s%d:%s%d' % (forms[i + 1][10], r + 1, forms[i + 1][10], r + 1), forms[i + 1].split(',', 1)[1][:-1]) for r in range(h)]
+            mk = realcode.eval_formulas(mask_forms, mvalues)
+            sel = [mixed[r] for r in range(h) if mk[r] == 'I1']
+            nums = [v for v in sel if isinstance(v, (int, float))]
+            if not nums:
+                continue
+            want = sum(nums) / len(nums)
+            got = core.dec(a) if not a.startswith('E') else None
+            if not isinstance(got, (int, float)) or abs(got - want) > 1e-12:
+                chk.violation({'why': 'AVERAGEIFS is not the mean of the selected NUMBERS of the target range (numbers stored as text are neither summed nor counted)',
+                               'formula': forms[i], 'target': repr(mixed), 'selected': repr(sel), 'impl': a, 'want': repr(want), 'stream': 'avg-mixed-target'})
 
 
 def replay(path):
